@@ -246,7 +246,7 @@ Section PerTask.
   Proof. revert st; induction l as [|k r IH]; intros st H; cbn [fold_left]; [exact H|]. apply IH, ok_emit_obs, H. Qed.
 
   Lemma ok_abort P st :
-    (forall x r, TP x -> TP (with_ts x (TDone r))) -> tasks_ok st -> tasks_ok (abort P st).
+    (forall x k, TP x -> TP (with_ts x (TDone (SThrow (XEng EOutOfFuel k))))) -> tasks_ok st -> tasks_ok (abort P st).
   Proof.
     intros Hd H. unfold tasks_ok, abort in *. cbn [st_tasks]. rewrite Forall_forall in *. intros y Hy.
     apply in_map_iff in Hy. destruct Hy as [x [<- Hx]]. apply (Hd x). apply H. exact Hx.
